@@ -100,6 +100,9 @@ func (c *Config) MetricAddress() string {
 // Load loads or reloads all the config files.
 func (c *Config) Load() error {
 	c.Extensions = nil
+	// the service list is rebuilt from the files: a file that no longer has a "services" key
+	// must not keep the list of the previous load
+	c.Services = nil
 	// concatenate plugins from all the config files
 	var plugins []PluginConfig
 	for _, configFile := range c.configFiles {
